@@ -144,3 +144,169 @@ package util
 //@ func (*ExtensionNode).GetHashBytes returns (b)
 //@   props C15
 //@   mode wrap
+
+// ================= C19: Merkle tree =================
+//
+// The tree array holds all levels, leaves first. A level starts at offset a and has sz nodes; the
+// next level starts at a+sz and has (sz+1)/2 nodes; node j of the next level is
+// MH(level[2j], level[min(2j+1, sz-1)])  (the last node of an odd level is paired with itself).
+
+//@ spec MH(a Str, b Str) Str = HashStr(a + b)
+//@ spec TS(ll int) int = ll <= 1 ? 1 : ll + TS((ll+1)/2)
+//@ spec LV(ll int) int = ll <= 1 ? 1 : 1 + LV((ll+1)/2)
+//@ spec IdxAt(idx0 int, m int) int = m <= 0 ? idx0 : IdxAt(idx0, m-1) / 2
+//@ spec FoldL(h Str, A (Array Int Str), o int, idx0 int, m int) Str = m <= 0 ? h : (IdxAt(idx0, m-1) % 2 == 1 ? MH(A[o+m-1], FoldL(h, A, o, idx0, m-1)) : MH(FoldL(h, A, o, idx0, m-1), A[o+m-1]))
+//@ pred Rel(T (Array Int Str), a int, sz int, j int) opaque = T[a+sz+j] == MH(T[a+2*j], T[a + (2*j+1 < sz ? 2*j+1 : sz-1)])
+//@ pred LOK(T (Array Int Str), a int, sz int) = sz <= 1 || ((forall j :: 0 <= j && j < (sz+1)/2 ==> Rel(T, a, sz, j)) && LOK(T, a+sz, (sz+1)/2))
+//@ pred TreeWF(mt *MerkleTree) = mt != nil && mt.leavesCount >= 1 && mt.leavesCount <= 1099511627776
+//@    | && (mt.leavesCount == 1 ==> len(mt.tree) == 2 && mt.levels == 2 && mt.tree[1] == MH(mt.tree[0], mt.tree[0]))
+//@    | && (mt.leavesCount > 1 ==> len(mt.tree) == TS(mt.leavesCount) && mt.levels == LV(mt.leavesCount) && LOK(arrval(mt.tree), off(mt.tree), mt.leavesCount))
+
+//@ lemma TSpos(x int) induction x
+//@   props C19
+//@   ensures TS(x) >= 1 && (x >= 2 ==> TS(x) >= x + 1)                       #ts-lower
+//@ lemma LVpos(x int) induction x
+//@   props C19
+//@   ensures LV(x) >= 1 && (x >= 2 ==> LV(x) >= 2) && (x >= 3 ==> LV(x) >= 3) && LV(x) <= x + 1      #lv-bounds
+
+// Bottom-up construction: LOKP(T,a,sz,stop) = the levels from (a,sz) up to (excluding) the level
+// that starts at offset stop are complete; Reach(a,sz,b,szb) = level (b,szb) lies on the level chain
+// that starts at (a,sz).
+//@ pred Reach(a int, sz int, b int, szb int) = (a == b && sz == szb) || (a < b && sz >= 1 && Reach(a+sz, (sz+1)/2, b, szb))
+//@ pred LOKP(T (Array Int Str), a int, sz int, stop int) = a >= stop || ((forall j :: 0 <= j && j < (sz+1)/2 ==> Rel(T, a, sz, j)) && LOKP(T, a+sz, (sz+1)/2, stop))
+
+//@ lemma ReachLe(a int, sz int, b int, szb int)
+//@   props C19
+//@   requires Reach(a, sz, b, szb)
+//@   ensures a <= b && (a == b ==> sz == szb)                                      #ordered
+//@ lemma RelFrame(T (Array Int Str), a int, sz int, j int, i int, v Str)
+//@   props C19
+//@   requires i != a + sz + j && i != a + 2*j && i != a + (2*j+1 < sz ? 2*j+1 : sz-1)
+//@   ensures Rel(store(T, i, v), a, sz, j) == Rel(T, a, sz, j)                      #frame
+//@ lemma LOKPFrame(T (Array Int Str), a int, sz int, b int, szb int, i int, v Str) induction b - a
+//@   props C19
+//@   requires a >= 0 && sz >= 1 && szb >= 1 && Reach(a, sz, b, szb) && LOKP(T, a, sz, b) && i >= b + szb
+//@   ensures LOKP(store(T, i, v), a, sz, b)                                       #frame
+//@ lemma LOKPExtend(T (Array Int Str), a int, sz int, b int, szb int) induction b - a
+//@   props C19
+//@   requires sz >= 1 && szb >= 1 && Reach(a, sz, b, szb) && LOKP(T, a, sz, b) && (forall j :: 0 <= j && j < (szb+1)/2 ==> Rel(T, b, szb, j))
+//@   ensures LOKP(T, a, sz, b + szb) && Reach(a, sz, b + szb, (szb+1)/2)            #extend
+//@ lemma LOKPtoLOK(T (Array Int Str), a int, sz int, b int) induction b - a
+//@   props C19
+//@   requires sz >= 1 && Reach(a, sz, b, 1) && LOKP(T, a, sz, b)
+//@   ensures LOK(T, a, sz)                                                          #complete
+
+// Writing at or beyond position o+m does not change the fold of the first m entries.
+//@ lemma FoldLFrame(h Str, A (Array Int Str), o int, idx0 int, m int, i int, v Str) induction m
+//@   props C19
+//@   requires i >= o + m
+//@   ensures FoldL(h, store(A, i, v), o, idx0, m) == FoldL(h, A, o, idx0, m)         #frame
+
+// Hashable is implemented outside this package; GetHash is a pure function of the value.
+//@ ufun HashOf(h Iface) Str
+//@ func (Hashable).GetHash returns (s)
+//@   pure
+//@   ensures s == HashOf(self)
+
+//@ func Hash returns (s)
+//@   props C19
+//@   assigns nothing
+//@   ensures s == HashStr(text) && len(s) == 64
+//@ func MHash returns (s)
+//@   props C19
+//@   assigns nothing
+//@   ensures s == MH(h1, h2) && len(s) == 64
+
+//@ func (*MerkleTree).computeSize returns (tsize, levels)
+//@   props C19
+//@   opt nilrecv ok
+//@   requires leaves >= 1 && leaves <= 1099511627776
+//@   assigns nothing
+//@   ensures leaves == 1 ==> tsize == 2 && levels == 2                       #one-leaf
+//@   ensures leaves > 1 ==> tsize == TS(leaves) && levels == LV(leaves)      #matches-recurrence
+//@   loop 1 invariant ll >= 1 && tsize >= 0 && levels >= 0 && tsize + TS(ll) == TS(leaves) && levels + LV(ll) == LV(leaves)    #recurrence
+//@   loop 1 invariant levels + ll <= leaves && tsize + 2*ll <= 2*leaves + levels                                                #bounded
+
+//@ func VerifyMerklePath returns (ok)
+//@   props C19
+//@   requires path != nil
+//@   assigns nothing
+//@   ensures ok == (FoldL(hash, arrval(path.Nodes), off(path.Nodes), path.LeafIndex, len(path.Nodes)) == root)      #fold-spec
+//@   loop 1 invariant 0 <= i && i <= pl && idx == IdxAt(path.LeafIndex, i) && mthash == FoldL(hash, arrval(path.Nodes), off(path.Nodes), path.LeafIndex, i)     #fold-prefix
+
+// The path for leaf idx: one sibling per level below the root, and folding the leaf hash along it
+// reaches the root (this is "the path produced for any leaf position verifies").
+//@ func (*MerkleTree).GetPathByIndex returns (p)
+//@   props C19
+//@   requires TreeWF(mt) && 0 <= idx && idx < mt.leavesCount
+//@   assigns nothing
+//@   ensures p != nil && fresh(p) && p.LeafIndex == idx && len(p.Nodes) == mt.levels - 1                               #shape
+//@   ensures FoldL(mt.tree[idx], arrval(p.Nodes), off(p.Nodes), idx, len(p.Nodes)) == mt.tree[len(mt.tree)-1]          #honest-path-folds-to-root
+//@   loop 1 invariant pi >= 1 && plsize >= 1 && pl0 >= 0 && 0 <= idx && idx < plsize && (mt.leavesCount == 1 ==> plsize == 1 && pl0 == 0 && pi == 1)      #level-bookkeeping
+//@   loop 1 invariant mt.leavesCount > 1 ==> plsize >= 2 && pi + LV(plsize) == mt.levels + 1 && pl0 + TS(plsize) == len(mt.tree)                               #level-recurrence
+//@   loop 1 invariant mt.leavesCount > 1 ==> LOK(arrval(mt.tree), off(mt.tree) + pl0, plsize) && idx == IdxAt(old(idx), pi-1)                                 #remaining-levels
+//@   loop 1 invariant mt.leavesCount > 1 ==> Rel(arrval(mt.tree), off(mt.tree) + pl0, plsize, idx/2)                                                            #parent-relation
+//@   loop 1 invariant len(path) == mt.levels - 1 && fresh(path) && off(path) == 0 && arrval(mt.tree) == old(arrval(mt.tree))      #path-buffer
+//@   loop 1 invariant mt.leavesCount > 1 ==> FoldL(mt.tree[old(idx)], arrval(path), 0, old(idx), pi) == mt.tree[pl0 + plsize + idx/2]     #prefix-folds-to-parent
+//@   loop 1 invariant mt.leavesCount == 1 ==> path[0] == mt.tree[0]                                                       #one-leaf-path
+
+// Construction: the tree is built as specified.
+//@ func (*MerkleTree).ComputeTree
+//@   props C19
+//@   requires len(hashes) >= 1 && len(hashes) <= 1099511627776 && (forall i :: 0 <= i && i < len(hashes) ==> hashes[i] != nil)
+//@   assigns mt.levels, mt.leavesCount, mt.tree
+//@   ensures TreeWF(mt) && mt.leavesCount == len(hashes) && fresh(mt.tree)                                    #tree-well-formed
+//@   ensures forall i :: 0 <= i && i < len(hashes) ==> mt.tree[i] == HashOf(hashes[i])                        #leaves-copied
+//@   loop 1 invariant forall i :: 0 <= i && i <= rangeindex ==> mt.tree[i] == HashOf(hashes[i])              #leaves-so-far
+//@   loop 2 invariant plsize >= 1 && pl0 >= 0 && pl0 + plsize >= mt.leavesCount && pl0 + TS(plsize) == len(mt.tree)      #level-bookkeeping
+//@   loop 2 invariant Reach(0, mt.leavesCount, pl0, plsize) && LOKP(arrval(mt.tree), 0, mt.leavesCount, pl0)             #levels-below-complete
+//@   loop 2 invariant forall i :: 0 <= i && i < len(hashes) ==> mt.tree[i] == HashOf(hashes[i])                           #leaves-kept
+//@   loop 2 latch LOKP(arrval(mt.tree), 0, mt.leavesCount, pl0)                                                            #levels-below-kept
+//@   loop 2 latch forall jj :: 0 <= jj && jj < (plsize+1)/2 ==> Rel(arrval(mt.tree), pl0, plsize, jj)                      #level-complete
+//@   loop 3 invariant 0 <= j && i == 2*j && i <= plsize + 1                                                               #pair-index
+//@   loop 3 invariant LOKP(arrval(mt.tree), 0, mt.leavesCount, pl0)                                                        #levels-below-kept
+//@   loop 3 invariant forall jj :: 0 <= jj && jj < j && 2*jj + 1 < plsize ==> Rel(arrval(mt.tree), pl0, plsize, jj)        #pairs-so-far
+//@   loop 3 invariant forall i2 :: 0 <= i2 && i2 < len(hashes) ==> mt.tree[i2] == HashOf(hashes[i2])                       #leaves-kept
+
+//@ func (*MerkleTree).GetRoot returns (r)
+//@   props C19
+//@   requires len(mt.tree) >= 1
+//@   assigns nothing
+//@   ensures r == mt.tree[len(mt.tree)-1]
+//@ func (*MerkleTree).GetTree returns (t)
+//@   props C19
+//@   assigns nothing
+//@   ensures t == mt.tree
+//@ func (*MerkleTree).GetLeafIndex returns (i)
+//@   props C19
+//@   requires mt.leavesCount >= 0 && mt.leavesCount <= len(mt.tree) && hash != nil
+//@   assigns nothing
+//@   ensures i == -1 ==> forall j :: 0 <= j && j < mt.leavesCount ==> mt.tree[j] != HashOf(hash)                        #absent
+//@   ensures i != -1 ==> 0 <= i && i < mt.leavesCount && mt.tree[i] == HashOf(hash) && forall j :: 0 <= j && j < i ==> mt.tree[j] != HashOf(hash)     #first-match
+//@   loop 1 invariant 0 <= i && i <= mt.leavesCount && forall j :: 0 <= j && j < i ==> mt.tree[j] != hs                 #none-before
+//@ func (*MerkleTree).GetPath returns (p)
+//@   props C19
+//@   requires TreeWF(mt) && mt.leavesCount <= len(mt.tree) && hash != nil
+//@   assigns nothing
+//@   ensures (exists j :: 0 <= j && j < mt.leavesCount && mt.tree[j] == HashOf(hash)) ==>
+//@      | FoldL(HashOf(hash), arrval(p.Nodes), off(p.Nodes), p.LeafIndex, len(p.Nodes)) == mt.tree[len(mt.tree)-1]        #lookup-path-folds-to-root
+//@ func (*MerkleTree).VerifyPath returns (ok)
+//@   props C19
+//@   requires len(mt.tree) >= 1 && hash != nil && path != nil
+//@   assigns nothing
+//@   ensures ok == (FoldL(HashOf(hash), arrval(path.Nodes), off(path.Nodes), path.LeafIndex, len(path.Nodes)) == mt.tree[len(mt.tree)-1])    #fold-spec
+
+// Loading an exported tree: the three fields are exactly the arguments / the recurrence.
+//@ func (*MerkleTree).SetTree returns (err)
+//@   props C19
+//@   requires leavesCount >= 1 && leavesCount <= 1099511627776
+//@   assigns mt.levels, mt.tree, mt.leavesCount
+//@   ensures err == nil ==> mt.tree == tree && mt.leavesCount == leavesCount && (leavesCount == 1 ==> mt.levels == 2 && len(tree) == 2) && (leavesCount > 1 ==> mt.levels == LV(leavesCount) && len(tree) == TS(leavesCount))     #fields-set
+//@   ensures err != nil ==> mt.tree == old(mt.tree) && mt.leavesCount == old(mt.leavesCount) && mt.levels == old(mt.levels)                        #unchanged-on-error
+//@   ensures err == nil && (leavesCount == 1 ==> tree[1] == MH(tree[0], tree[0])) && (leavesCount > 1 ==> LOK(arrval(tree), off(tree), leavesCount)) ==> TreeWF(mt)     #loaded-tree-well-formed
+
+// The same path does not verify for a different leaf hash (A-hash: HashStr is injective).
+//@ lemma FoldInj(h1 Str, h2 Str, A (Array Int Str), o int, idx0 int, m int) induction m
+//@   props C19
+//@   requires FoldL(h1, A, o, idx0, m) == FoldL(h2, A, o, idx0, m)
+//@   ensures h1 == h2                                                        #same-fold-same-leaf
